@@ -140,8 +140,13 @@ def run_case(case, tier):
             ref = None
             if op[0] in ("get", "exists", "traverse", "traverse_from", "root_node"):
                 ref = HX.step(tc, op, cback)
+            raw_before = None if t._ref_count is None else dict(t._ref_count)
             out = HX.step(t, op, backing)
             outs.append(out)
+            if (bad is None and not inside and op[0] in ("set", "del") and isinstance(out, Exc) and out.tag == 8
+                    and raw_before is not None and dict(t._ref_count) != raw_before):
+                bad = (f"failed {op[0]} touched the reference-count table (entries added or changed, zero-valued ones included): "
+                       f"{len(raw_before)} -> {len(t._ref_count)} entries")
             if op[0] in ("set", "del", "batch") and not (isinstance(out, Exc) or (op[0] == "batch" and out[1] is not None)):
                 cback.log = []
                 HX.step(tc, op, cback)          # mirror successful writes only
@@ -170,7 +175,33 @@ def run_case(case, tier):
         # retry loop on the real code: supply only the reported node
         if bad is None:
             bad = retry_loop(case, removed, full, stats)
+        if bad is None:
+            bad = reopened_pruning_probe(probes, removed, full, bytes(t0.root_hash))
     return runs, bad, stats
+
+
+def reopened_pruning_probe(probes, removed, full, root):
+    """a PRUNING trie opened on an existing database (its count table starts empty: nothing on the path is tracked, as for the
+    batch trie of a non-pruning trie): a write that fails at a missing node leaves root, database and the count TABLE - zero
+    entries included - exactly as they were"""
+    from trie import HexaryTrie
+    db = C.FailingDict({k: v for k, v in full.items() if k not in removed})
+    t = HexaryTrie(db, root, prune=True)
+    for op in probes:
+        if op[0] not in ("set", "del"):
+            continue
+        before = (bytes(t.root_hash), dict(db), dict(t._ref_count))
+        out = HX.step(t, op, db)
+        if isinstance(out, Exc) and out.tag == 8:
+            after = (bytes(t.root_hash), dict(db), dict(t._ref_count))
+            if after != before:
+                what = "root" if after[0] != before[0] else ("database" if after[1] != before[1] else "reference-count table")
+                return f"a failed {op[0]} on a pruning trie opened over an existing database changed its {what}"
+            if t._pending_prune_keys is not None:
+                return "pending prune table left behind by a failed call (re-opened pruning trie)"
+        elif isinstance(out, Exc):
+            break          # e.g. ValidationError from pruning an untracked, absent node: outside what this probe is about
+    return None
 
 
 def complete_result(case, op, full):
